@@ -25,6 +25,11 @@ WorkerChecks(r) ==
     \cup (IF "login" \in DOMAIN r /\ r.login = "lost" THEN {"LoginDropped"} ELSE {})
     \* an event that cannot be written ends the worker with that error (C05), through the whole ingester chain
     \cup (IF "login" \in DOMAIN r /\ r.login = "werr:lost" THEN {"WriteErrorLost"} ELSE {})
+    \* a consumer that was away for a while finds every line, in order: back-pressure delays, it does not drop (C15)
+    \cup (IF "login" \in DOMAIN r /\ r.login = "lines:lost" THEN {"LineDroppedUnderBackPressure"} ELSE {})
+    \* cancelled with a long backlog of queued lines: the worker stops taking input (a handful of lines may still go
+    \* through, the parser chooses fairly between "cancelled" and "another line"), it does not work off the queue (C13)
+    \cup (IF "login" \in DOMAIN r /\ r.login = "backlog:drained" THEN {"BacklogProcessedAfterCancel"} ELSE {})
     \* a session that never got its login stays silent, also while the processor shuts down (C04)
     \cup (IF "login" \in DOMAIN r /\ r.login = "leak" THEN {"UncorrelatedEmittedAtShutdown"} ELSE {})
 
